@@ -27,7 +27,7 @@ def jobs(tier):
       Job("const-union3-of-containers", M, "h_const",
           dict(C11_DEPTH=3, C11_NLEAVES=2, C11_COMP=3, C11_ROOT_UNION=3, C11_NOPT=3), shards=251, timeout=t),
       Job("const-user-generics", M, "h_const", dict(C11_GENERIC=1, C11_DEPTH=2, C11_COMP=5, C11_NOPT=6), shards=127, timeout=t),
-      Job("func-2sig", M, "h_func", dict(C11_NSIG=2, C11_NPTYPES=4, C11_NRTYPES=11, C11_NMUT=2, C11_NEXC=2, C11_NOPT=6), shards=509, timeout=t),
+      Job("func-2sig", M, "h_func", dict(C11_NSIG=2, C11_NPTYPES=4, C11_NRTYPES=8, C11_NMUT=2, C11_NEXC=2, C11_NOPT=6), shards=509, timeout=t),
       Job("func-3sig", M, "h_func", dict(C11_NSIG=3, C11_NPTYPES=2, C11_NRTYPES=5, C11_NMUT=2, C11_NEXC=1, C11_NOPT=3), shards=251, timeout=t),
   ]
 
